@@ -32,12 +32,17 @@ pub struct Script {
     log: Rc<RefCell<Vec<J>>>,
 }
 impl Script {
+    /// a scripted source without a log (used by the statistics suite)
+    pub fn plain(data: &[u8], sched: &[Resp]) -> Script {
+        Script { data: data.to_vec(), pos: 0, sched: sched.to_vec(), i: 0, log: Rc::new(RefCell::new(vec![])) }
+    }
     fn next(&mut self) -> Resp {
         let r = if self.i < self.sched.len() { self.sched[self.i] } else { Resp::Bytes(usize::MAX) };
         self.i += 1;
         r
     }
     fn entry(&self, ret: &str, req: usize, k: usize) {
+        if self.log.borrow().len() > 100_000 { return; }
         self.log.borrow_mut().push(json!({"t": "src", "ret": ret, "req": req.min(1 << 30), "k": k}));
     }
     fn give(&mut self, k: usize, buf: &mut [u8]) -> usize {
@@ -168,10 +173,10 @@ pub fn message_session(data: &[u8], sh: bool, sched: &[Resp], is_async: bool, cf
     }
     res
 }
-fn sched_json(s: &[Resp]) -> J {
+pub fn sched_json(s: &[Resp]) -> J {
     J::Array(s.iter().map(|r| match r { Resp::Bytes(k) => json!((*k).min(1 << 30)), Resp::Retry => json!(0) }).collect())
 }
-fn sched_of_json(j: &J) -> Vec<Resp> {
+pub fn sched_of_json(j: &J) -> Vec<Resp> {
     j.as_array().unwrap().iter().map(|x| match x.as_u64().unwrap() { 0 => Resp::Retry, k => Resp::Bytes(if k >= 1 << 30 { usize::MAX } else { k as usize }) }).collect()
 }
 /// C07 event: one blocking session (next_message_slice), plus read_message on the same schedule compared with parsing each delivered slice
